@@ -132,98 +132,124 @@ fn base_frame<R: Rng>(rng: &mut R) -> Affine {
     Affine { m, t }
 }
 
-/// vertex i of the library's regular n-gon (angle measured from +y towards +x)
-fn vertex(n: usize, i: i64) -> [f64; 2] {
-    let th = i as f64 * 2. * PI / n as f64;
-    [th.sin(), th.cos()]
+fn convex_radii<R: Rng>(rng: &mut R, n: usize) -> Vec<f64> {
+    // irregular but convex: perturb some radii, keep if the oracle says convex
+    for _ in 0..40 {
+        let scale = rng.gen_range(0.5, 1.6);
+        let radii: Vec<f64> = (0..n).map(|_| if rng.gen_bool(0.5) { scale } else { scale * rng.gen_range(0.75, 1.2) }).collect();
+        if let Some(s) = (ShapeSpec::Radial { radii: radii.clone() }).line() {
+            if s.oshape().is_convex() && radii.iter().any(|r| (*r - radii[0]).abs() > 1e-3) {
+                return radii;
+            }
+        }
+    }
+    vec![rng.gen_range(0.3, 2.); n]
+}
+
+fn centroid(v: &[[f64; 2]]) -> [f64; 2] {
+    let n = v.len() as f64;
+    let c = v.iter().fold([0., 0.], |a, p| [a[0] + p[0], a[1] + p[1]]);
+    [c[0] / n, c[1] / n]
+}
+
+/// edge j of polygon v: (midpoint, unit direction, unit outward normal, length)
+fn edge(v: &[[f64; 2]], j: usize) -> ([f64; 2], [f64; 2], [f64; 2], f64) {
+    let (p, q) = (v[j], v[(j + 1) % v.len()]);
+    let d = [q[0] - p[0], q[1] - p[1]];
+    let len = (d[0] * d[0] + d[1] * d[1]).sqrt();
+    let e = [d[0] / len, d[1] / len];
+    let mut n = [e[1], -e[0]];
+    let c = centroid(v);
+    let mid = [(p[0] + q[0]) / 2., (p[1] + q[1]) / 2.];
+    if n[0] * (mid[0] - c[0]) + n[1] * (mid[1] - c[1]) < 0. {
+        n = [-n[0], -n[1]];
+    }
+    (mid, e, n, len)
+}
+
+fn apply(m: &[[f64; 2]; 2], p: [f64; 2]) -> [f64; 2] {
+    [m[0][0] * p[0] + m[0][1] * p[1], m[1][0] * p[0] + m[1][1] * p[1]]
 }
 
 pub fn gen_polygon_case<R: Rng>(rng: &mut R) -> Case {
     let n: usize = rng.gen_range(3, 13);
-    let shape = if rng.gen_bool(0.15) {
-        // convex radial polygon with all radii equal but != 1
-        ShapeSpec::Radial { radii: vec![rng.gen_range(0.3, 2.); n] }
-    } else {
-        ShapeSpec::Polygon { sides: n }
+    let shape = match rng.gen_range(0, 10) {
+        0 => ShapeSpec::Radial { radii: vec![rng.gen_range(0.3, 2.); n] },
+        1 | 2 | 3 => ShapeSpec::Radial { radii: convex_radii(rng, n) },
+        _ => ShapeSpec::Polygon { sides: n },
     };
-    let scale = match &shape {
-        ShapeSpec::Radial { radii } => radii[0],
-        _ => 1.,
+    let verts: Vec<[f64; 2]> = match shape.line().map(|l| l.oshape()) {
+        Some(OShape::Poly(v)) => v,
+        _ => vec![[0., 1.], [1., 0.], [0., -1.], [-1., 0.]],
     };
-    let r_in = scale * (PI / n as f64).cos();
-    let edge = 2. * scale * (PI / n as f64).sin();
+    let size = verts.iter().map(|p| (p[0] * p[0] + p[1] * p[1]).sqrt()).fold(0., f64::max);
+    let regular = matches!(shape, ShapeSpec::Polygon { .. });
     let f = base_frame(rng);
-    let kind = rng.gen_range(0, 8);
-    let j: i64 = rng.gen_range(0, n as i64);
-    let thn = j as f64 * 2. * PI / n as f64 + PI / n as f64;
-    let nrm = [thn.sin(), thn.cos()];
-    let edir = [nrm[1], -nrm[0]];
-    let k: i64 = rng.gen_range(0, n as i64);
-    let (rel, tag): (Affine, &str) = match kind {
-        0 => (Affine { m: rot(k as f64 * 2. * PI / n as f64), t: [0., 0.] }, "coincident"),
+    let deltas = [0., 1e-12, -1e-12, 1e-7, -1e-7, 1e-3, -1e-3, 0.05, -0.05];
+    let j = rng.gen_range(0, n);
+    let i = rng.gen_range(0, n);
+    let (mid_a, e_a, n_a, len_a) = edge(&verts, j);
+    let (rel, tag): (Affine, &str) = match rng.gen_range(0, 8) {
+        0 => {
+            let k = if regular { rng.gen_range(0, n) } else { 0 };
+            (Affine { m: rot(k as f64 * 2. * PI / n as f64), t: [0., 0.] }, "coincident")
+        }
         1 | 2 => {
-            // parallel edges, slide along an edge direction, offset along its normal
-            let deltas = [0., 1e-12, -1e-12, 1e-7, -1e-7, 1e-3, -1e-3];
-            let p = match rng.gen_range(0, 4) {
-                0 => 0.,
-                1 => 2. * r_in * (1. + deltas[rng.gen_range(0, deltas.len())]),
-                _ => rng.gen_range(0., 2.3 * r_in),
+            // edge i of B face to face with edge j of A: rotate B so that its outward normal
+            // on edge i is -n_a, then place the edge midpoints at offset (s along, p across)
+            let (_, _, n_b, len_b) = edge(&verts, i);
+            let phi = (-n_a[1]).atan2(-n_a[0]) - n_b[1].atan2(n_b[0]);
+            let m = rot(phi);
+            let rv: Vec<[f64; 2]> = verts.iter().map(|p| apply(&m, *p)).collect();
+            let (mid_b, _, _, _) = edge(&rv, i);
+            let p = match rng.gen_range(0, 3) {
+                0 => deltas[rng.gen_range(0, deltas.len())],
+                1 => rng.gen_range(-0.5 * size, 0.2 * size),
+                _ => 0.,
             };
+            let lmax = 0.5 * (len_a + len_b);
             let s = match rng.gen_range(0, 5) {
                 0 => 0.,
-                1 => edge * if rng.gen_bool(0.5) { 1. } else { -1. },
-                2 => edge / 2. * if rng.gen_bool(0.5) { 1. } else { -1. },
-                _ => rng.gen_range(-1.2 * edge, 1.2 * edge),
+                1 => lmax * if rng.gen_bool(0.5) { 1. } else { -1. },
+                2 => 0.5 * (len_a - len_b),
+                _ => rng.gen_range(-1.2 * lmax, 1.2 * lmax),
             };
-            // make an edge of B face edge j of A: for odd n turn B by pi
-            let turn = if n % 2 == 1 { PI } else { 0. } + k as f64 * 2. * PI / n as f64;
-            (
-                Affine { m: rot(turn), t: [scale * 0. + p * nrm[0] + s * edir[0], p * nrm[1] + s * edir[1]] },
-                "parallel-edges-slide",
-            )
+            let target = [mid_a[0] + s * e_a[0] + p * n_a[0], mid_a[1] + s * e_a[1] + p * n_a[1]];
+            (Affine { m, t: [target[0] - mid_b[0], target[1] - mid_b[1]] }, "parallel-edges-slide")
         }
         3 => {
             // shared vertex: vertex i of B on vertex j of A
-            let phi = if rng.gen_bool(0.5) { k as f64 * 2. * PI / n as f64 } else { rng.gen_range(0., 2. * PI) };
+            let phi = if rng.gen_bool(0.5) && regular { rng.gen_range(0, n) as f64 * 2. * PI / n as f64 } else { rng.gen_range(0., 2. * PI) };
             let m = rot(phi);
-            let vi = vertex(n, rng.gen_range(0, n as i64));
-            let vj = vertex(n, j);
-            let rv = [m[0][0] * vi[0] + m[0][1] * vi[1], m[1][0] * vi[0] + m[1][1] * vi[1]];
-            (Affine { m, t: [scale * (vj[0] - rv[0]), scale * (vj[1] - rv[1])] }, "shared-vertex")
+            let rv = apply(&m, verts[i]);
+            (Affine { m, t: [verts[j][0] - rv[0], verts[j][1] - rv[1]] }, "shared-vertex")
         }
         4 => {
-            // mirror image at a random offset
             let phi: f64 = rng.gen_range(0., 2. * PI);
             let (s, c) = phi.sin_cos();
-            let d = rng.gen_range(0., 2.4 * scale);
+            let d = rng.gen_range(0., 2.4 * size);
             let dir: f64 = rng.gen_range(0., 2. * PI);
             (Affine { m: [[-c, -s], [-s, c]], t: [d * dir.cos(), d * dir.sin()] }, "mirror-image")
         }
         5 => {
-            // vertex of B on an edge of A (T contact), B then pushed in/out along the normal
-            let deltas = [0., 1e-12, -1e-12, 1e-7, -1e-7, 1e-3, -1e-3, 0.05, -0.05];
+            // lowest vertex of B (along -n_a) put on edge j of A, then pushed in/out
             let phi: f64 = rng.gen_range(0., 2. * PI);
             let m = rot(phi);
-            // lowest vertex of B along -nrm
             let mut best = (f64::INFINITY, [0., 0.]);
-            for i in 0..n as i64 {
-                let v = vertex(n, i);
-                let rv = [scale * (m[0][0] * v[0] + m[0][1] * v[1]), scale * (m[1][0] * v[0] + m[1][1] * v[1])];
-                let h = rv[0] * nrm[0] + rv[1] * nrm[1];
+            for v in verts.iter() {
+                let rv = apply(&m, *v);
+                let h = rv[0] * n_a[0] + rv[1] * n_a[1];
                 if h < best.0 {
                     best = (h, rv);
                 }
             }
-            let along = rng.gen_range(-0.45 * edge, 0.45 * edge);
-            let target = [r_in * nrm[0] + along * edir[0], r_in * nrm[1] + along * edir[1]];
+            let along = rng.gen_range(-0.45 * len_a, 0.45 * len_a);
             let push = deltas[rng.gen_range(0, deltas.len())];
-            (
-                Affine { m, t: [target[0] - best.1[0] + push * nrm[0], target[1] - best.1[1] + push * nrm[1]] },
-                "vertex-on-edge",
-            )
+            let target = [mid_a[0] + along * e_a[0] + push * n_a[0], mid_a[1] + along * e_a[1] + push * n_a[1]];
+            (Affine { m, t: [target[0] - best.1[0], target[1] - best.1[1]] }, "vertex-on-edge")
         }
         _ => {
-            let d = rng.gen_range(0., 2.5 * scale);
+            let d = rng.gen_range(0., 2.5 * size);
             let dir: f64 = rng.gen_range(0., 2. * PI);
             (Affine { m: rot(rng.gen_range(0., 2. * PI)), t: [d * dir.cos(), d * dir.sin()] }, "random")
         }
